@@ -28,4 +28,5 @@ VARIANTS = [
     V("N-public-export-through-forwarding-wrapper", "src/soundevent/geometry/__init__.py", "    group_sound_events,\n    have_frequency_overlap,", "    have_frequency_overlap,", None,
       also=(("src/soundevent/geometry/__init__.py", "from soundevent.geometry.html import geometry_to_html\n", "from soundevent.geometry.html import geometry_to_html\nfrom soundevent.geometry.grouping import group_sound_events\n"),
             ("src/soundevent/geometry/grouping.py", "", "from soundevent.geometry import operations as _ops\n\n\ndef group_sound_events(sound_events, comparison_fn):\n    \"\"\"Public entry point (implementation in operations).\"\"\"\n    return _ops.group_sound_events(sound_events, comparison_fn)\n"))),
+    V("fill-diagonal-instead-of-mirror", O, "        row.extend([index2, index1])", "        row.extend([index1, index2])", "R13.1"),
 ]
